@@ -158,6 +158,10 @@ def monitor(ctx, sess, regs):
         if isinstance(m, Exception):
             ctx.count('monitor:not-a-partition')
             ctx.extra.setdefault('monitor_failures', []).append({'how': markers.describe(sess, r), 'why': str(m)})
+            if isinstance(m, trees.NotPartition) and ctx.extra.get('monitor_np_reported', 0) < 3:
+                # the theorems speak about diagrams in cut form; a marker the API produced whose edges are not a sorted contiguous cover is outside them
+                ctx.extra['monitor_np_reported'] = ctx.extra.get('monitor_np_reported', 0) + 1
+                ctx.disagreement('the kind() walk of a marker the API produced is a partition (precondition of every theorem about it)', markers.describe(sess, r), 'a sorted contiguous cover by simple ranges', str(m)[:300])
             continue
         cmds.append(['wfb', m])
         rs.append(r)
@@ -227,6 +231,13 @@ def run(ctx):
                 if nontriv:
                     ctx.nontrivial((k, dump(ms[0]), dump(ms[-2])))
                 envs = markers.grid_envs(ctx.rng, keys, ms, 6 if quick else 10)
+                # the same environments with a local version label on the interpreter versions ("for every environment"): the pointwise law is
+                # model-free, so any PEP 440 version the environment type accepts may be used
+                loc = []
+                for e, x in envs[:3]:
+                    if all(c.isdigit() or c == '.' for c in e['python_full_version'] + e['implementation_version']):
+                        loc.append((dict(e, python_full_version=e['python_full_version'] + '+local', implementation_version=e['implementation_version'] + '+ubuntu1'), x))
+                envs = list(envs) + loc
             ctx.evaluations += 1
             for env, ex in envs:
                 vals = []
